@@ -44,6 +44,12 @@ package liveness
 // "with a capacity configured the cache never holds more entries than that capacity": the bound is enforced by the
 // LRU (assumed library behaviour: its eviction callback removes the map entry); what the code controls is that the
 // LRU is created with the configured capacity and that the callback's lock is the cache's lock.
+// C18 "evicted entries are never served": the eviction callback - the only place where an entry the LRU dropped leaves
+// the map that Lookup answers from - removes the evicted key from the map on EVERY way out (it may wait for the map
+// lock; it may not give up when the lock is busy)
+//@ func newLRUCache$1(k interface{}, v interface{})
+//@   requires lc != nil && typeis(k, string) && !held(&lc.m) && rheld(&lc.m) == 0
+//@   ensures @C18: !(unboxstr(k) in lc.ipCache) && !held(&lc.m)
 //@ func newLRUCache(exp time.Duration, size int) *lruCache
 //@   ensures @C18: result != nil ==> result.lru != nil && lruSizeOf(result.lru) == ite(size <= 0, 100000, size) && result.lruSize == lruSizeOf(result.lru) && result.expiration == exp
 //@   ensures @C18 @C19: result != nil
